@@ -256,7 +256,12 @@ def run(ctx):
                     meta.append(("pg", {"rows": ch["rows"], "col": ch["col"], "first_page": ch["pages"][0]}, ch["pages"]))
         elif obs and "error" in obs and res["outcome"] == "ok":
             ctx.broken.append({"kind": "harness-error", "name": "observe", "detail": obs["error"]})
-    outs = pq.batch(cmds)
+    uniq = {}
+    for c in cmds:                       # the same (rows, first page) / (n, request) pairs occur thousands of times
+        uniq.setdefault(json.dumps(c), c)
+    ukeys = list(uniq)
+    uouts = dict(zip(ukeys, pq.batch([uniq[k] for k in ukeys])))
+    outs = [uouts[json.dumps(c)] for c in cmds]
     for (kind, case, impl), mo in zip(meta, outs):
         if kind == "rg":
             # empty row groups are not written (make_row_group returns None for 0 rows)
